@@ -7,7 +7,7 @@ CHECKS = {
                 "(debug on/off), sequential and dask observation; the call log of tracing probes must equal the reference list built from a "
                 "literal copy of the group order. All 45 group pairs x 3 enabled patterns x 2 renderings are enumerated on every run. Exploration, no absence claim.",
         "design_ref": "DESIGN.md section 3, C01",
-        "note": "Trusted: the probe's own logging; the literal group-order tuple copied from the property statement. The dask path's single eager metadata run is allowed.",
+        "note": "Trusted: the probe's own logging; the literal group-order tuple copied from the property statement. The dask path's single eager metadata run is allowed. Entries: pyxel.run_mode (exposure, debug, sequential / dask observation, calibration) and the older pyxel.exposure_mode / pyxel.observation_mode; re-runs of the same pipeline object after its enabled flags were edited.",
     },
     "C02": {
         "technique": "property-based testing: generated schedules x renderings x write plans x detector histories with clock-and-bucket probes (reference clock computed in the harness); invalid schedules by mutation through 7 entry points",
@@ -15,7 +15,7 @@ CHECKS = {
                 "step start are compared with a reference computed from the spec, for fresh detectors, detectors with planted leftovers and detectors "
                 "that already ran other exposures. Mutated (invalid) schedules must raise before any probe runs. Exploration.",
         "design_ref": "DESIGN.md section 3, C02",
-        "note": "Written values include non-finite content (nan / inf) for the float buckets. Trusted: probe reads through the detector's public properties. NaN schedules and zeros at later positions are outside both the accept and the reject set.",
+        "note": "Written values include non-finite content (nan / inf) for the float buckets. Trusted: probe reads through the detector's public properties. NaN schedules and zeros at later positions are outside both the accept and the reject set. A quarter of the cases run through the older pyxel.exposure_mode loop.",
     },
     "C03": {
         "technique": "property-based testing: generated writer-probe pipelines with per-step plans and dtypes; result slices, labels, dtypes, scene/data nodes and debug records compared with in-run snapshots; flat-vs-hierarchical and debug-on-vs-off differentials",
@@ -24,7 +24,7 @@ CHECKS = {
                 "labels/dtypes are checked, layouts and debug on/off must agree, and every debug record is checked for soundness and completeness "
                 "against before/after snapshots of each writer. Exploration.",
         "design_ref": "DESIGN.md section 3, C03",
-        "note": "Trusted: snapshot probes (public API reads). Known finding K4 (uint64 > 2^53) is excluded from the main generator and probed separately.",
+        "note": "Trusted: snapshot probes (public API reads). Known finding K4 (uint64 > 2^53) is excluded from the main generator and probed separately. Float buckets also carry nan / inf frames; a bucket may be updated in place by a second model of the same step.",
     },
     "C15": {
         "technique": "property-based testing of the listed library models with generated frames/parameters against accounting oracles (exact identity, min, idempotence, kernel sum, conservation invariants), repeated over generated steps",
@@ -49,7 +49,7 @@ CHECKS = {
                 "final pixel frame must equal the single-readout frame, intermediate readouts must be proportional to elapsed time, destructive frames "
                 "proportional to their own duration, and scaling all intervals must scale all frames. Exploration.",
         "design_ref": "DESIGN.md section 3, C17",
-        "note": "Relative tolerance 1e-12 x readouts. Trusted: numpy for the comparison; the relation itself needs no reference implementation.",
+        "note": "Relative tolerance 1e-12 x readouts. Trusted: numpy for the comparison; the relation itself needs no reference implementation. All four detector types; random and evenly spaced partitions.",
     },
     "C13": {
         "technique": "model-based property testing of generated operation sequences (Hypothesis) against a reference container model",
@@ -57,7 +57,7 @@ CHECKS = {
                 "containers of generated detectors are compared step by step with a None|ndarray reference model; exploration, "
                 "thousands of sequences per run, no absence claim.",
         "design_ref": "DESIGN.md section 3, C13",
-        "note": "Trusted: numpy semantics for in-place addition and array equality; container state is read back only through the public API.",
+        "note": "Trusted: numpy semantics for in-place addition and array equality; container state is read back only through the public API. Operations include the detector-level reset Detector.empty(reset) of both readout modes.",
     },
     "C20": {
         "technique": "property-based testing: per-pixel reference placement for fit_into_array; write/read round trips over formats and delimiters; generated rewrite histories with a harness-owned file clock against the cached loaders",
@@ -82,7 +82,7 @@ CHECKS = {
                 "container are compared field by field. A file made from detector X is loaded by the load_detector model at a generated pipeline position of a running detector Y; "
                 "the detector after the run and the returned result must hold X's data. Exploration.",
         "design_ref": "DESIGN.md section 3, C18",
-        "note": "HDF5 skipped (h5py absent; counted). Containers compared by emptiness, shape, dtype kind and exact values.",
+        "note": "HDF5 skipped (h5py absent; counted). Containers compared by emptiness, shape, dtype kind and exact values. The data tree includes groups without variables (coordinates only, attributes only, empty leaf); group existence and attributes are compared.",
     },
     "C12": {
         "technique": "exhaustive field x value-class x path acceptance grid (differential between constructor, YAML, setter, Processor.set and sweep against the documented range table) plus property-based testing of generated whole configuration documents (YAML vs Python construction differential)",
@@ -98,7 +98,7 @@ CHECKS = {
                 "the snapshot of all settings must change in exactly that key to the value the text literally denotes, get/has must agree. Mutated keys must be refused by Processor.set, "
                 "sequential and dask observations (product/sequential), and run_mode overrides before any probe model runs and without inventing attributes; sweeping an argument of a disabled model must raise. Exploration.",
         "design_ref": "DESIGN.md section 3, C08",
-        "note": "Ambiguous textual spellings (quotes, blanks, hex, True/None) are not generated. Calibration entry point for invalid keys is exercised in C10.",
+        "note": "Ambiguous textual spellings (quotes, blanks, hex, True/None) are not generated. Calibration entry point for invalid keys is exercised in C10. Part 'nested': keys inside mapping- / list-of-mappings-valued arguments over a generated history of set / replace / create_new_processor / deepcopy on a pool of processors (finding F35, fixed).",
     },
     "C05": {
         "technique": "property-based testing: generated parameter spaces (product / sequential / custom, scalar and vector parameters, colliding names, numpy expressions, disabled parameters) against itertools reference enumerators; echo probes encode received values so that label-based selection is checkable",
@@ -123,7 +123,7 @@ CHECKS = {
                 "executed: the call or compute() must raise with the unique token, the injected type, group and model name and (sequentially) the run's parameter values; no result object, no later call, "
                 "no computable bucket of the failing run. Fault enumeration: complete per configuration, configurations sampled.",
         "design_ref": "DESIGN.md section 3, C09",
-        "note": "Calibration-phase faults are enumerated in the calibration part once registered. The dask metadata run may surface the fault at run_mode.",
+        "note": "Calibration-phase faults are enumerated in the calibration part once registered. The dask metadata run may surface the fault at run_mode. Entry points: pyxel.run_mode, pyxel.run(<yaml>) with and without an outputs section, pyxel.exposure_mode / observation_mode (finding F36, fixed; the parameter-value note is asserted only behind run_mode / run, where the property places it).",
     },
     "C19": {
         "technique": "property-based testing of generated start histories with a harness-owned clock (same-second starts constructed), barrier-released concurrent starts and pre-populated colliding names; read-back differential of every reported file against the result bucket with the same label; before/after content hash of pre-existing files",
@@ -131,7 +131,7 @@ CHECKS = {
                 "directories and a plain file with the next candidate names; the clock inside pyxel.outputs is replaced so that timestamps are equal or increasing as generated, and groups of starts run concurrently in "
                 "threads. Each start must get a fresh distinct folder, nothing pre-existing may change, every reported file must exist, sit in its run's folder and (fits/npy) equal the labelled bucket, counts must match. Exploration.",
         "design_ref": "DESIGN.md section 3, C19",
-        "note": "The fake clock is installed from outside (attribute of pyxel.outputs.outputs) in the check's own process; no source hook. jpg: existence only.",
+        "note": "The fake clock is installed from outside (attribute of pyxel.outputs.outputs) in the check's own process; no source hook. jpg: existence only. Part 'legacy_exposure': auto-numbered per-readout files of pyxel.exposure_mode for 1..14 readouts.",
     },
     "C10": {
         "technique": "property-based testing against a reference model of the decision-vector <-> parameter mapping (bounds, log10 / 10** conversion, slicing) at the pygmo-problem level, plus box / applied-values invariants over the evaluation log of real calibration runs",
@@ -139,7 +139,7 @@ CHECKS = {
                 "receives for decision vectors in the box and at its corners are compared with the harness's reference; short sade / sga / nlopt runs (1..2 islands, topologies, seeds) must keep every evaluation and "
                 "every reported champion / best decision inside the declared box, report parameters == convert(decision), report champions that were really evaluated, and leave the caller's objects unchanged. Exploration.",
         "design_ref": "DESIGN.md section 3, C10",
-        "note": "The problem object is built exactly as Calibration.run_calibration builds it. Synchronous dask scheduler (schedulers are C07's subject).",
+        "note": "The problem object is built exactly as Calibration.run_calibration builds it. Synchronous dask scheduler (schedulers are C07's subject). Half of the run cases run the same objects a second time; the champions' returned data is compared with the probe's analytic frame for the reported parameters (finding F34, fixed).",
     },
     "C11": {
         "technique": "property-based testing against a numpy re-implementation of the three fitness functions on analytically recomputed simulated data; accept/reject classification of generated fit-range pairs; re-simulation differential of reported champions in real runs",
@@ -148,7 +148,7 @@ CHECKS = {
                 "evaluation and valid ones accepted. In short real runs the reported champion fitness must be reproduced by re-simulating the reported parameters, /simulated and /full_size must be computable and equal "
                 "the re-simulation, and the champion fitness must not increase over evolutions. Exploration.",
         "design_ref": "DESIGN.md section 3, C11",
-        "note": "Tolerance 1e-9 relative. reduced chi-squared with fewer data points than free parameters is outside its domain (counted as excluded).",
+        "note": "Tolerance 1e-9 relative. reduced chi-squared with fewer data points than free parameters is outside its domain (counted as excluded). Half of the run cases calibrate a stochastic pipeline under a declared pipeline_seed (one island; parallel islands race on the global generator = K2).",
     },
     "C04": {
         "technique": "property-based testing: (a) seeding helper against a private RandomState and state identity, (b) introspection-discovered seeded models run twice from different generator states, (c) generated stochastic pipelines re-run from different prior states / process histories in every mode, (d) injectivity-based leak detector for unseeded random models",
